@@ -88,9 +88,12 @@ RUNS = (
           note='pop_idx, push_idx any multiples of step_size below 2^27*step_size; ~node must finish within entries_per_node iterations')
   + per_e('ctor', 'h_ctor', [1, 4], lambda e: ['ram_node_ctor.0:%d' % (e + 1)], cls='shape-complete')
   + per_e('dtor', 'h_dtor', [1, 4], lambda e: ['ram_dtor.0:5'], cls='shape-complete', note='list of 1..3 nodes plus unlisted nodes')
-  + per_e('push', 'h_push', [1, 2, 4], lambda e: ['ram_node_ctor.0:%d' % (e + 1), 'ram_node_dtor.0:%d' % (e + 2)], cls='shape-complete',
-          note='loop cut by invariant PUSHSEQ; counters unbounded, entries_per_node is the shape')
-  + per_er('pop', 'h_pop', [(1, 1), (2, 0), (2, 1), (4, 2)], lambda e, r: ['ram_pop_seq.%d:%d' % (i, r + 2) for i in range(3)], ER, cls='shape-complete',
+  + per_e('push', 'h_push', [1, 2, 4], lambda e: ['ram_node_ctor.0:%d' % (e + 1), 'ram_node_dtor.0:%d' % (e + 2), 'ram_push.0:%d' % (e + 3), 'ram_push.1:%d' % (e + 3)],
+          cls='shape-complete', trace_defs={'XV_UNCUT': 1, 'XV_TRACE_SMALL': 1},
+          note='loop cut by invariant PUSHSEQ; counters unbounded, entries_per_node is the shape (the ram_push.* bounds are only used when a counterexample is extracted on the original loop)')
+  + per_er('pop', 'h_pop', [(1, 1), (2, 0), (2, 1), (4, 2)],
+           lambda e, r: ['ram_pop_seq.%d:%d' % (i, r + 2) for i in range(3)] + ['ram_pop.%d:%d' % (i, max(3 * e + 4, r + 2)) for i in range(2)], ER,
+           cls='shape-complete', trace_defs={'XV_UNCUT': 1, 'XV_TRACE_SMALL': 1},
            note='loop cut by invariant POPSEQ; inner retry loop unwound pop_retries+1 times')
   + per_e('push_unwound', 'h_push', [1], lambda e: ['ram_push.0:%d' % (e + 3), 'ram_push.1:%d' % (e + 3), 'ram_node_ctor.0:%d' % (e + 1), 'ram_node_dtor.0:%d' % (e + 2)],
           es=[1, 2], cls='shape-complete', defs={'XV_UNCUT': 1}, note='cross-check of the cut-loop runs: the original loop, completely unwound')
@@ -191,6 +194,8 @@ UNIT = dict(
     'ram.node.live_deref': dict(deciding=True, text='every node dereferenced is allocated and not deleted'),
   },
   replays={'ram.node_dtor.owned_only': dict(src='replay_node_dtor.cpp'),
+           **{o: dict(src='replay_ops.cpp', fixed={'in_op': 1}) for o in ('ram.push.slot', 'ram.push.new_node', 'ram.push.fifo', 'ram.push.frame')},
+           **{o: dict(src='replay_ops.cpp', fixed={'in_op': 2}) for o in ('ram.pop.slot', 'ram.pop.fifo', 'ram.pop.empty', 'ram.pop.next_node', 'ram.pop.invalidate', 'ram.pop.frame')},
            'ram.idx.injective': dict(src='replay_idx.cpp'),
            'ram.push.throw_keeps_value': dict(src='native_push_throw_leak.cpp', no_inputs=True),
            'ram.push.rollback': dict(src='native_push_throw_leak.cpp', no_inputs=True)},
